@@ -6,7 +6,7 @@ patch, pids = sys.argv[1], sys.argv[2:]
 tmp = Path(tempfile.mkdtemp(prefix="tp_"))
 try:
     shutil.copytree("/repo/semantiva", tmp / "semantiva")
-    p = subprocess.run(["patch", "-p1", "--batch", "--silent", "-d", str(tmp), "-i", patch], capture_output=True, text=True)
+    p = subprocess.run(["patch", "-p1", "--batch", "--silent", "-d", str(tmp), "-i", str(Path(patch).resolve())], capture_output=True, text=True)
     if p.returncode:
         print("PATCH FAILED", p.stdout, p.stderr); sys.exit(3)
     for pid in pids:
